@@ -18,7 +18,7 @@ import (
 	"mc/explore"
 )
 
-func init() { register("C20", "exploration", runC20) }
+func init() { register("C20", "model_checking", runC20) }
 
 func runC20(ctx *Ctx) {
 	r := ctx.R
@@ -125,7 +125,18 @@ func runC20(ctx *Ctx) {
 				r.Violate("concurrent/deadlock/"+gname, cs, err.Error(), c.Picks)
 				return
 			}
-			_ = s
+			// explicit accounting of the explored schedule space: a state is (group, how many scheduling points each thread
+			// has passed, which thread runs), a transition is one scheduling decision, a trace one complete schedule
+			if s != nil {
+				pos := make([]int, len(g.idx))
+				l.State(report.H(fmt.Sprint("c20", gi, pos, -1)))
+				for _, tid := range s.Trace {
+					l.Transition(report.H(fmt.Sprint("c20", gi, pos, tid)))
+					pos[tid]++
+					l.State(report.H(fmt.Sprint("c20", gi, pos, tid)))
+				}
+				l.Trace()
+			}
 			for t, oi := range g.idx {
 				if want := seq[fmt.Sprint(ops[oi].name, t)]; outs[t] != want {
 					r.Violate("concurrent/result-differs-from-sequential/"+gname, cs, fmt.Sprintf("thread %d (%s): %s, alone: %s", t, ops[oi].name, outs[t], want), c.Picks)
